@@ -64,3 +64,26 @@ Definition op_ok_cfg (gs : list grp) (x : nat * str) : bool :=
 
 Definition walk_of (rops : list (nat * str)) (src : str) : walk :=
   WEnd (map (fun x => (fst x, PStr (snd x))) rops) (feat src).
+
+(* ---- any description: what the theorem needs of the options of one configured level ---- *)
+
+(* k is a key that some group of the universe reads: an operation key, in_features, or a key with a default *)
+Definition mapped_key (gs : list grp) (k : str) : bool :=
+  str_eqb k k_in_features || existsb (fun g => str_eqb k (g_key g) || existsb (str_eqb k) (g_defaults g)) gs.
+
+(* the operation under the group's key, in_features = v, and no OTHER key that a group of the universe reads
+   (keys nobody reads, e.g. feature_chainer_parser_key, are free; placement in group or context is free) *)
+Definition level_options (gs : list grp) (gr cx : list (str * pv)) (key op : str) (v : pv) : Prop :=
+  options_get key gr cx = PStr op /\ options_get k_in_features gr cx = v /\
+  forall k, mapped_key gs k = true -> str_eqb k key = false -> str_eqb k k_in_features = false ->
+            options_get k gr cx = PNone.
+
+(* f describes the chain rops (from the outside in) over the source src *)
+Inductive describes (gs : list grp) : list (nat * str) -> str -> pv -> Prop :=
+| D_last : forall i op name gr cx v src,
+    has_dunder name = false -> level_options gs gr cx (g_key (grp_at gs i)) op v -> good_spelling v (feat src) ->
+    describes gs [(i, op)] src (PFeat (PStr name) gr cx)
+| D_more : forall i op name gr cx v n' g' c' rops src,
+    has_dunder name = false -> level_options gs gr cx (g_key (grp_at gs i)) op v ->
+    good_spelling v (PFeat n' g' c') -> rops <> [] -> describes gs rops src (PFeat n' g' c') ->
+    describes gs ((i, op) :: rops) src (PFeat (PStr name) gr cx).
